@@ -1,6 +1,7 @@
 package main
 
 import (
+	"strings"
 	"bytes"
 	"encoding/binary"
 	"errors"
@@ -300,6 +301,48 @@ func c14Roundtrip(c *vlib.Ctx) {
 				}
 			}
 			c.Count("roundtrip_reads_"+tag, 1)
+		}
+		// two captures appended into one stream (cat a.pcapng b.pcapng): every section has its own interfaces, the packets of
+		// the second must be read against the second's
+		if f.Kind == capgen.Ng && i%4 == 0 {
+			g := capgen.NgFile(c.Rand(uint64(i), 2), true, false)
+			if g.WriteErr == "" {
+				both := &capgen.File{Kind: capgen.Ng, Bytes: append(append([]byte{}, f.Bytes...), g.Bytes...), Mixed: true}
+				for api := 0; api < 3; api++ {
+					recs, final, ctor, _, pi := c14ReadAll(both, both.Bytes, api)
+					if pi != nil {
+						c.Violation(pi.Key, "reader panicked on two appended captures: "+pi.Value, c14Detail(f, apiNames[api]))
+						break
+					}
+					if ctor {
+						break
+					}
+					fm, gm := *f, *g
+					fm.Mixed, gm.Mixed = true, true
+					bad := false
+					for k := 0; k < len(recs) && k < len(f.Pkts)+len(g.Pkts) && !bad; k++ {
+						src, w := &fm, capgen.Pkt{}
+						if k < len(f.Pkts) {
+							w = f.Pkts[k]
+						} else {
+							src, w = &gm, g.Pkts[k-len(f.Pkts)]
+						}
+						if key, desc := c14ComparePkt(src, w, recs[k], api); key != "" {
+							sec := map[bool]string{true: "first", false: "second"}[k < len(f.Pkts)]
+							suffix := ":two-sections"
+							if strings.HasPrefix(key, "timestamp-differs:interface-with-tsoffset") {
+								suffix = ":pcapng" // the listed if_tsoffset defect, whichever section the interface is in
+							}
+							c.Violation(key+suffix, fmt.Sprintf("packet %d (%s section) of two appended captures via %s: %s", k, sec, apiNames[api], desc), c14Detail(g, ""))
+							bad = true
+						}
+					}
+					if !bad && (len(recs) != len(f.Pkts)+len(g.Pkts) || !errors.Is(final, io.EOF)) {
+						c.Violation("packet-count-differs:two-sections", fmt.Sprintf("%s returned %d packets then %v; %d+%d were written", apiNames[api], len(recs), final, len(f.Pkts), len(g.Pkts)), c14Detail(g, ""))
+					}
+					c.Count("two_section_streams_read", 1)
+				}
+			}
 		}
 		for ft := range f.Features {
 			c.Count("files_with_"+ft, 1)
